@@ -473,6 +473,15 @@ class ConnectionPool(Entity):
 
         while self._total_connections < self._min_connections:
             connection = yield from self._create_connection()
+
+            if self._waiters:
+                # Acquirers queued up during the warm-up: serve the oldest one
+                # instead of parking the new connection in the idle list.
+                _waiter_id, _request_time, callback = self._waiters.popleft()
+                self._activate_connection(connection)
+                callback(connection)
+                continue
+
             self._idle_connections.append(connection)
 
             # Schedule idle timeout check
